@@ -189,6 +189,7 @@ def float_guard_boundaries(F, rep, rule="C14.cast"):
     })
     for f, casts, fparams in helpers:
         bad, undec, n = [], [], 0
+        refused = []
         for to in sorted({c[0] for c in casts}):
             bits = BITS.get(to)
             if bits is None:
@@ -215,6 +216,11 @@ def float_guard_boundaries(F, rep, rule="C14.cast"):
                     undec.append("%r -> %s" % (v, to))
                 elif reached and not fits:
                     bad.append("%r reaches `as %s` (%s)" % (v, to, "NaN becomes 0" if math.isnan(v) else "saturates to the type's limit"))
+                elif fits and not reached and not (unknown or forked):
+                    # the other direction: a value the type can hold is turned away by the guard
+                    refused.append("%r fits %s but the guard refuses it" % (v, to))
         rep.ob(rule, "%s lets a float through to `as` only when the integer type can hold it (boundary values of each target)" % mir.short(f.path),
                "violated" if bad else ("undecided" if undec else "ok"), "; ".join((bad or undec)[:4]) or "%d boundary evaluations" % n, f.span, fn=f.path,
                key="%s|float-range|%s" % (rule, mir.short(f.path)))
+        rep.ob(rule, "%s turns no float away that the integer type can hold (boundary values of each target)" % mir.short(f.path),
+               "violated" if refused else "ok", "; ".join(refused[:4]), f.span, fn=f.path, key="%s|float-range-complete|%s" % (rule, mir.short(f.path)))
